@@ -361,6 +361,13 @@ let matches_expected want got =
     else j < ng && want.[i] = got.[j] && go (i + 1) (j + 1) in
   go 0 0
 
+(* the terse listing (NEXTEST=1 --list --format terse) prints exactly the benchmarks that are not skipped *)
+let listed_of entries =
+  List.filter_map (fun tok ->
+      match String.index_opt tok '=' with
+      | Some k when String.sub tok (k + 1) (String.length tok - k - 1) <> "I" -> Some (String.sub tok 0 k)
+      | _ -> None) (List.filter (fun t -> t <> "") (String.split_on_char ' ' entries))
+
 let opt_check line =
   let (c, i) = split_sb line in
   let isecs = sections i in
@@ -372,7 +379,11 @@ let opt_check line =
     let want = String.split_on_char ' ' (opt_gen true minput) in
     if List.length want <> List.length got then verdict false "different-set-of-benchmarks" else
     (match List.filter (fun (w, g) -> not (matches_expected w g)) (List.combine want got) with
-     | [] -> "true"
+     | [] ->
+       let want_listed = listed_of (String.concat " " want) and listed = nonempty (section isecs "L") in
+       let diff a b = String.concat "," (List.filter (fun x -> not (List.mem x b)) a) in
+       verdict (want_listed = listed)
+         (Printf.sprintf "terse-listing:listed-but-skipped-in-a-run=[%s]-run-but-not-listed=[%s]" (diff listed want_listed) (diff want_listed listed))
      | (w, g) :: _ -> verdict false ("expected:" ^ w ^ "-observed:" ^ g))
   | _ -> verdict false ("outcome:" ^ i)
 
@@ -588,7 +599,7 @@ let dispatch mode line =
   | "ovw.sb" -> ovw_check line
   | "into" -> into line
   | "into.sb" -> into_check line
-  | "opt" -> "O " ^ opt_gen false line
+  | "opt" -> let e = opt_gen false line in "O " ^ e ^ " #L " ^ String.concat " " (listed_of e)
   | "opt.sb" -> opt_check line
   | "psec" -> psec line
   | "psec.sb" -> psec_check line
